@@ -1,1 +1,2 @@
 //! Reference models written from the documentation (docs/src), not from the code under test.
+pub mod isa;
